@@ -37,10 +37,12 @@ def run(F, chk):
     import c05, c07
     Q5 = chk.rule('Q5', 'inside the receive loop a message leaves the queue only when its lifecycle is known not to be buffered (so it has been published)')
     P3 = chk.rule('P3', 'after every merge the whole queue and the current message are relabelled (no delivered message carries the id of an unpublished, merged lifecycle)')
+    T5 = chk.rule('T5', 'every lifecycle created in the stage is inserted into buffered_lcs or published before the message that created it is queued or delivered')
     for b in stages:
         st0 = lcstage.Stage(F, b)
         c05.check_queue_release(st0, Q5)
         c07.check_relabel(F, st0, P3)
+        check_new_lifecycle_registered(st0, T5)
     for b in stages:
         st = lcstage.Stage(F, b)
         cfg = st.cfg
@@ -156,3 +158,78 @@ def run(F, chk):
             else:
                 T3.violation(('final-publication-missing', b.path), 'between end of input and the final flush there is no update under buffered_lcs.contains(..) followed by refresh (updates=%d refreshes=%d guarded=%s)' % (len(ups), len(cls), okc),
                              where=b.loc(b.blocks[fb].term.sp))
+
+
+# ---------------------------------------------------------------------------------------------
+# T5: a new lifecycle is registered as unconfirmed (or published) before its first message moves on
+
+def check_new_lifecycle_registered(st, T5):
+    """Every lifecycle created in the stage (Lifecycle::new) is, on every path, inserted into buffered_lcs (so that its
+    messages are held back until it is published) or published (table update) before the message that created it is queued,
+    handed to the outflow, or the next message is received.  A lifecycle that is neither buffered nor published is
+    invisible to readers while its messages are delivered."""
+    from paths import Explorer
+    body, cfg = st.body, st.cfg
+    T5.fn(body.path)
+    news = set(st.blocks_with('LC_NEW'))
+    inserts = set(st.blocks_with('LCS_INSERT'))
+    updates = set(bi for bi in st.blocks_with('W_DIRTY') if st.info[bi].get('what') in ('update', 'insert'))
+    sinks = set(st.blocks_with('STORE')) | set(st.blocks_with('SEND')) | set(st.blocks_with('RECV_IN'))
+    T5.floor('Lifecycle::new call sites in the stage', len(news), 1)
+    T5.floor('buffered_lcs.insert sites', len(inserts), 1)
+
+    def block_effect(b, facts):
+        if b.i in sinks:
+            pass
+        if b.i in news:
+            facts = frozenset(facts | {('unregistered', b.i)})
+        if b.i in inserts or b.i in updates:
+            facts = frozenset(f for f in facts if f[0] != 'unregistered')
+        return facts
+    ex = Explorer(cfg, block_effect=block_effect, var_roots=set())
+    ex.run()
+    T5.paths += ex.n_states
+    bad = {}
+    for sb in sinks:
+        for s in ex.states.get(sb, ()):
+            for f in s[1]:
+                if f[0] == 'unregistered' and f[1] != sb:
+                    bad.setdefault(f[1], (sb, s))
+    # lifecycles returned by Lifecycle::update (Some(new lifecycle)): from the Some edge of the match on its result no sink is
+    # reachable without an insert / publication
+    from facts import Operand
+    E = st.E
+    for ub in sorted(st.blocks_with('LC_UPDATE')):
+        dest = body.blocks[ub].term.dest
+        if dest is None or not dest.is_local or not (dest.t or '').startswith('std::option::Option<'):
+            continue
+        for blk in body.blocks:
+            if blk.cleanup or blk.term.k != 'switch':
+                continue
+            o = Operand(blk.term.d['d'])
+            if o.place is None or not o.place.is_local:
+                continue
+            sd = cfg.single_def(o.place.l)
+            if sd is None or sd[1] == 'call' or sd[2].rv['k'] != 'discr' or sd[2].rv['p']['l'] != dest.l or sd[2].rv['p'].get('p'):
+                continue
+            some_t = [t for v, t in blk.term.d['vals'] if v == 1]
+            if not some_t and blk.term.d['vals'] and all(v == 0 for v, _ in blk.term.d['vals']):
+                some_t = [blk.term.d['otherwise']]
+            for tgt in some_t:
+                T5.sites += 1
+                r = cfg.reachable_from(tgt, avoid=inserts | updates)
+                esc = [x for x in sinks if x in r]
+                if esc:
+                    T5.violation(('returned-lifecycle-unregistered', body.path), 'the new lifecycle returned by Lifecycle::update at %s can reach %s without being inserted into buffered_lcs or published' %
+                                 (body.loc(body.blocks[ub].term.sp), body.loc(body.blocks[esc[0]].term.sp)), where=body.loc(body.blocks[ub].term.sp))
+                else:
+                    T5.ok(sample={'new_lifecycle_from': 'Lifecycle::update (Some)', 'at': body.loc(body.blocks[ub].term.sp), 'then': 'buffered_lcs.insert on every path'})
+    for nb in sorted(news):
+        T5.sites += 1
+        if nb in bad:
+            sb, s = bad[nb]
+            T5.violation(('new-lifecycle-unregistered', body.path, 'site%d' % sorted(news).index(nb)),
+                         'the lifecycle created at %s can reach %s without having been inserted into buffered_lcs or published: its messages are queued/delivered while readers cannot see the lifecycle' %
+                         (body.loc(body.blocks[nb].term.sp), body.loc(body.blocks[sb].term.sp)), where=body.loc(body.blocks[nb].term.sp), witness={'block_path': ex.witness(sb, s)[-40:]})
+        else:
+            T5.ok(sample={'new_lifecycle_at': body.loc(body.blocks[nb].term.sp), 'then': 'buffered_lcs.insert / table update on every path before the message moves on'})
